@@ -18,7 +18,7 @@ From Coq Require Import ZArith NArith List Bool.
 From PG Require Import Common.Tactics Model.SymCoreDefs Model.SymCoreOps Model.SymCoreSpec Model.SymCoreC02
      Proofs.SymCoreWF Proofs.SymCoreC02Base Proofs.SymCoreC02Read Proofs.SymCoreC02Frame Proofs.SymCoreC02Prim
      Proofs.SymCoreC02List Proofs.SymCoreC02Dict Proofs.SymCoreC02Step Proofs.SymCoreC02Ext Proofs.PyListFacts
-     Proofs.SymCoreC02Slice Proofs.SymCoreC02WF Proofs.SymCoreC02Examples Proofs.SymCoreC02Summary.
+     Proofs.SymCoreC02Slice Proofs.SymCoreC02WF Proofs.SymCoreC02Examples Proofs.SymCoreC02Summary Proofs.SymCoreC02Init.
 From PG Require Model.PyList Model.PyDict.
 Import ListNotations.
 Local Open Scope Z_scope.
@@ -91,6 +91,23 @@ Theorem C02_history_dict_partial : forall q r tid fl, no_quirks q -> forall h st
   option_map erase (get_root (run_ops q st (on_root r h)) r) = Some (PNode KDict (dhist_py (eitems its) h)).
 Proof. exact c02_history_dict_partial_proof. Qed.
 Print Assumptions C02_history_dict_partial.
+
+(* "for all initial contents": any constructed (unsealed) pg.List / pg.Dict, whatever its literal, under any such history *)
+Theorem C02_history_of_constructed_list_partial : forall q, no_quirks q -> forall fl lits h,
+  f_sealed fl = false -> lit_valid (LitNode KList fl false lits) = true ->
+  lhist2_ok fl (pvals (plit (LitNode KList fl false lits))) h ->
+  option_map erase (get_root (run_ops2 q (init_forest [LitNode KList fl false lits] empty_state) (on_root2 0 h)) 0) =
+  Some (plist (lhist2_py (pvals (plit (LitNode KList fl false lits))) h)).
+Proof. exact history_of_constructed_list. Qed.
+Print Assumptions C02_history_of_constructed_list_partial.
+
+Theorem C02_history_of_constructed_dict_partial : forall q, no_quirks q -> forall fl lits h,
+  f_sealed fl = false -> lit_valid (LitNode KDict fl false lits) = true ->
+  dhist_ok fl (pitems (plit (LitNode KDict fl false lits))) h ->
+  option_map erase (get_root (run_ops q (init_forest [LitNode KDict fl false lits] empty_state) (on_root 0 h)) 0) =
+  Some (PNode KDict (dhist_py (pitems (plit (LitNode KDict fl false lits))) h)).
+Proof. exact history_of_constructed_dict. Qed.
+Print Assumptions C02_history_of_constructed_dict_partial.
 
 (* the hypotheses are satisfiable: a constructed forest, a nine-call list history and a five-call dict history *)
 Theorem C02_history_hypotheses_example :
